@@ -274,9 +274,7 @@ def reprGMonthDay (v : GMonthDayV) : Str := '-' :: '-' :: (pad2 v.month ++ '-' :
 
 /-- `'-'? yyyy…`: at least four digits, no leading zero beyond four digits.  Returns (digits, rest). -/
 def splitYear (s : Str) : Option (Str × Str) :=
-  let body := match s with
-    | '-' :: r => r
-    | r => r
+  let body := if s.head? = some '-' then s.tail else s
   let ds := body.takeWhile isDig
   if ds.length < 4 then none
   else if ds.length > 4 && ds.head? = some '0' then none
